@@ -983,14 +983,17 @@ func (t *fnTrans) frameCond(name string, st *State) Term {
 	if sv.Free && !t.keepsGhost(t.fc, name) {
 		return "" // free ghosts are outside the frame unless the contract says `keeps`
 	}
-	if sv.Kind == "chan" && !t.fc.NoChan {
-		return "" // channel counters are outside the frame unless the contract says `nochan`
+	if sv.Kind == "chan" && !t.fc.NoChan && !t.fc.HasChans {
+		return "" // channel counters are outside the frame unless the contract says `nochan` or `chans ...`
 	}
 	cur := t.get(st, name)
 	if cur == name+"_0" {
 		return ""
 	}
 	refs := allowed[name]
+	if sv.Kind == "chan" && t.fc.HasChans {
+		refs = append(append([]Term{}, refs...), t.chansAllowed(t.fc, t.entryEnv(t.entrySt))[name]...)
+	}
 	for _, r := range refs {
 		if r == "*" {
 			return ""
@@ -1009,6 +1012,31 @@ func (t *fnTrans) frameCond(name string, st *State) Term {
 		return fmt.Sprintf("(forall ((fr Int)) (! (=> (and (<= fr %s)%s) (= (select %s fr) (select %s_0 fr))) :pattern ((select %s fr))))", a0, ex, cur, name, cur)
 	}
 	return fmt.Sprintf("(= %s %s_0)", cur, name)
+}
+
+// chansAllowed: for a contract with a `chans` clause, per channel-ghost state variable the channel references the function may
+// operate on (evaluated in env: the entry state of the function itself, or the pre-state at a call site).
+func (t *fnTrans) chansAllowed(fc *FuncContract, env *Env) map[string][]Term {
+	out := map[string][]Term{}
+	for _, item := range fc.Chans {
+		x, err := parseSpec(item)
+		if err != nil {
+			t.errorf("chans %q: %v", item, err)
+			continue
+		}
+		v, ty := env.eval(x)
+		if _, ok := ty.Underlying().(*types.Chan); !ok {
+			t.errorf("chans %q: not a channel", item)
+			continue
+		}
+		a, b, c := t.chanVars(ty)
+		names := []string{a.Name, b.Name, c.Name, t.chanClosedVar(ty).Name, t.chanDrainedVar(ty).Name,
+			t.stateVar("CL_"+typeKey(ty), "(Array Int Int)", "chan", true, nil).Name}
+		for _, n := range names {
+			out[n] = append(out[n], v.T)
+		}
+	}
+	return out
 }
 
 // keepsGhost: does contract fc promise (clause `keeps`) to leave the free ghost with state variable `name` unchanged?
